@@ -579,3 +579,40 @@ fn c02_so_version_name_fourth_alnum() {
 fn c02_so_version_name_third_alnum() {
     so_version_concrete("a.so.1.2.3rc4", (1, 2, 3, 4));
 }
+
+/// No expectation on the value: the call returns (C02: never panics on any mapped-file name).
+fn so_version_returns(name: &'static str) {
+    let r = crate::linux::maps_reader::verif_so_version_parse(std::ffi::OsStr::new(name));
+    kani::cover!(r.is_some(), "a version was derived");
+    kani::cover!(r.is_none(), "no version");
+    kani::cover!(true, "returned");
+}
+macro_rules! sov {
+    ($name:ident, $s:expr) => {
+        #[kani::proof]
+        #[kani::unwind(24)]
+        fn $name() {
+            so_version_returns($s);
+        }
+    };
+}
+sov!(c02_so_version_total_space_in_name, "/l b/lib x.so.10.2");
+sov!(c02_so_version_total_five_components, "a.so.1.2.3.4.5");
+sov!(c02_so_version_total_nonascii_everywhere, "\u{e9}.so.\u{e9}.1\u{e9}.\u{e9}2.3\u{1d11e}");
+sov!(c02_so_version_total_fourth_nonascii, "a.so.1.2.3.4\u{e9}5");
+sov!(c02_so_version_total_no_version, "/usr/lib/a.so");
+sov!(c02_so_version_total_trailing_dot, "a.so.1.");
+sov!(c02_so_version_total_huge_number, "a.so.99999999999.2");
+/// Digits symbolic (every pair), structure concrete: "a.so.1.2.<d>\u{e9}<e>".
+#[kani::proof]
+#[kani::unwind(24)]
+fn c02_so_version_symbolic_digits() {
+    use std::os::unix::ffi::OsStrExt;
+    let d: u8 = kani::any();
+    let e: u8 = kani::any();
+    kani::assume(d >= b'0' && d <= b'9' && e >= b'0' && e <= b'9');
+    let name = [b'a', b'.', b's', b'o', b'.', b'1', b'.', b'2', b'.', d, 0xC3, 0xA9, e];
+    let r = crate::linux::maps_reader::verif_so_version_parse(std::ffi::OsStr::from_bytes(&name));
+    assert!(r == Some((1, 2, (d - b'0') as u32, (e - b'0') as u32)));
+    kani::cover!(true, "reached");
+}
